@@ -55,7 +55,7 @@ def build_corpus(tier, seed):
             xs += b
         b, r = gen.enumerate_blocks(gen.mem3_vocab(), [["*", "*", "*"]], 4)
         gstats["mem3"] = len(b)
-        xs += b
+        mem3 = b
         sim = []
         for name, v, n in (("mem", gen.mem_vocab(), 40), ("sto", gen.sto_vocab(), 30),
                            ("mixed", gen.mem_vocab(small=True) + gen.sto_vocab() + gen.split_vocab() + gen.stack_vocab(), 50)):
@@ -83,7 +83,7 @@ def build_corpus(tier, seed):
                 sim += b
         real = corpus.real_blocks()
         pairs = []
-    groups["Xpair"] = [{"cmd": "opt", "text": t} for t in pairs]
+    groups["Xpair"] = [{"cmd": "opt", "text": t} for t in pairs] + [{"cmd": "opt", "text": t} for t in (mem3 if tier == "quick" else [])]
     gstats["rule_pairs"] = len(pairs)
     gstats.update({"rule_basic": len(rb), "rule_ctx": len(rc), "rule_chain": len(chain), "sim": len(sim), "real": len(real),
                    "hand": len(hand)})
